@@ -42,6 +42,8 @@ type c13member struct {
 	parkedAt    bool
 	saving      bool
 	rebalancing bool
+	closeInRebalance bool
+	rebalanceAfterShutdown bool
 }
 
 func checkC13(run *Run, res *Result) {
@@ -93,8 +95,18 @@ func checkC13(run *Run, res *Result) {
 				streamClosedWindow[e.M] = true
 			case "BeforeStreamStart":
 				streamClosedWindow[e.M] = false
+				// a new session starts from the store: what earlier sessions acknowledged is not this shutdown's to save
+				get(e.M).ackPos, get(e.M).nondocPos = map[int]uint64{}, map[int]uint64{}
 			case "BeforeRebalanceStart":
 				get(e.M).rebalancing = true
+				if mm := get(e.M); mm.closeN > 0 && !mm.closed {
+					mm.rebalanceAfterShutdown = true // a pending rebalance timer fires while the shutdown is in progress
+				}
+				if mm := get(e.M); mm.closed {
+					mm.rebalanceAfterShutdown = true
+					res.violate("C13", "R3-activity-after-shutdown", e.N, "rebalance-timer-fired-during-or-after-shutdown",
+						"member %d: a rebalance begins after Start() had returned (event #%d): a pending rebalance timer survived the shutdown", e.M, mm.retN)
+				}
 			case "AfterRebalanceEnd":
 				get(e.M).rebalancing = false
 			}
@@ -174,6 +186,11 @@ func checkC13(run *Run, res *Result) {
 			if e.S == "CMD_DCPCLOSESTREAM" {
 				mm.closeReq[e.Vb] = true
 			}
+			if strings.HasPrefix(e.S, "HTTP GET /") && mm.closeN > 0 && !mm.closed && e.T > mm.closeT && cfg.HealthCheck {
+				// Stop() of the health check is the first step of the shutdown: a ping that starts later means it was not stopped
+				res.violate("C13", "R3-health-check-not-stopped", e.N, "plain",
+					"member %d: a health-check ping was issued %s after Close() had been called (event #%d): the checker kept running its round during shutdown", e.M, fmtDur(e.T-mm.closeT), mm.closeN)
+			}
 			if mm.closed {
 				res.violate("C13", "R3-activity-after-shutdown", e.N, e.S, "member %d: request %s (vb %d key %s) reached the cluster after Start() had returned (event #%d)", e.M, e.S, e.Vb, keyStr(e.Key), mm.retN)
 			}
@@ -187,6 +204,7 @@ func checkC13(run *Run, res *Result) {
 			}
 			mm := get(e.M)
 			mm.closeN, mm.closeT = e.N, e.T
+			mm.closeInRebalance = mm.rebalancing
 			switch {
 			case mm.rebalancing && streamClosedWindow[e.M]:
 				res.probe("close:rebalance-closed-window")
@@ -227,6 +245,8 @@ func checkC13(run *Run, res *Result) {
 						sig := "plain"
 						if fileAfterStop[e.M] > 0 {
 							sig = "file-rewritten-after-stream-stop"
+						} else if mm.closeInRebalance {
+							sig = "close-during-rebalance-window"
 						}
 						res.violate("C13", "R2-settled-position-not-stored", e.N, sig,
 							"member %d vb %d: position %d had been acknowledged before Close() (event #%d); when Start() returned the store held %d (present=%v), with automatic checkpointing and no fault after the call",
@@ -259,8 +279,10 @@ func checkC13(run *Run, res *Result) {
 		died := res.DeathKind == "runtime-panic" || res.DeathKind == "library-failstop"
 		if died {
 			sig := "plain"
-			if strings.Contains(res.FailStop, "nil pointer") && strings.Contains(res.FailStop, "stream.(*stream).Close") {
-				sig = "close-on-already-closed-stream"
+			if mm.closeInRebalance {
+				sig = "close-during-rebalance-window"
+			} else if mm.rebalanceAfterShutdown {
+				sig = "rebalance-timer-fired-during-or-after-shutdown"
 			}
 			res.violate("C13", "R1-crash-during-shutdown", len(run.Evs), sig, "member %d: the process died after Close() was called (event #%d): %s", m, mm.closeN, res.FailStop)
 			continue
@@ -268,7 +290,11 @@ func checkC13(run *Run, res *Result) {
 		if !mm.closed && run.Ended {
 			last := run.Evs[len(run.Evs)-1].T
 			if last-mm.closeT > bound {
-				res.violate("C13", "R1-shutdown-never-completed", len(run.Evs), "plain", "member %d: Close() was called at %s; Start() had still not returned %s later (bound %s)", m, fmtDur(mm.closeT), fmtDur(last-mm.closeT), fmtDur(bound))
+				sig := "plain"
+				if mm.closeInRebalance {
+					sig = "close-during-rebalance-window"
+				}
+				res.violate("C13", "R1-shutdown-never-completed", len(run.Evs), sig, "member %d: Close() was called at %s; Start() had still not returned %s later (bound %s)", m, fmtDur(mm.closeT), fmtDur(last-mm.closeT), fmtDur(bound))
 			}
 		}
 		if mm.closed && run.Ended && len(mm.conns) > 0 {
